@@ -100,6 +100,25 @@ pub fn structured() -> Vec<(String, Deviation)> {
             }
         }
     }
+    // licensing PDU: SEC_LICENSE_PKT together with each other security-header flag x 0..12 bytes after the security header
+    for bit in 0..16u16 {
+        for after in 0..=12usize {
+            let mut w = W::new();
+            w.u16le(0x0080 | (1 << bit)).u16le(0).bytes(&[0xFF, 0x03, 0x10, 0x00, 0x07, 0, 0, 0, 0x02, 0, 0, 0][..after]);
+            v.push((format!("licence security flags {:#06x} followed by {} bytes", 0x0080u16 | (1 << bit), after), Deviation { msg: "licence".into(), kind: DevKind::ReplaceInner(w.done()) }));
+        }
+    }
+    // MCS domain PDUs of one and two bytes: every choice index (x the two low bits) where a confirm / the licence is expected
+    for first in 0..=255u8 {
+        for name in ["attach_confirm", "join_confirm", "licence"] {
+            v.push((format!("one-byte MCS PDU {:#04x} instead of {}", first, name), Deviation { msg: name.into(), kind: DevKind::Replace(vref::framing::tpkt(&vref::framing::x224_dt(&[first]))) }));
+            if first % 4 == 0 {
+                for second in [0x00u8, 0x80, 0xFF] {
+                    v.push((format!("two-byte MCS PDU {:#04x} {:#04x} instead of {}", first, second, name), Deviation { msg: name.into(), kind: DevKind::Replace(vref::framing::tpkt(&vref::framing::x224_dt(&[first, second]))) }));
+                }
+            }
+        }
+    }
     // MCS connect response: every result code x BER length widths; GCC blocks: SC_CORE of every legal and illegal
     // length, SC_NET with many / inconsistent channel counts, blocks missing, repeated, unknown, empty
     {
@@ -171,6 +190,13 @@ pub fn structured() -> Vec<(String, Deviation)> {
             vec![0x7f, 0x66, 0x88, 0x80, 0, 0, 0, 0, 0, 0, 0, 0x0a],
             vec![0x7f, 0x66, 0x84, 0xff, 0xff, 0xff, 0xff, 0x0a, 0x01, 0x00],
             vec![0x7f, 0x66, 0x80, 0x0a, 0x01, 0x00, 0x00, 0x00],
+            // an indefinite-length element followed by / containing an element that declares a length near 2^64
+            vec![0x7f, 0x66, 0x80, 0x0a, 0x88, 0xff, 0xff, 0xff, 0xff, 0xff, 0xff, 0xff, 0xff],
+            vec![0x7f, 0x66, 0x80, 0x0a, 0x01, 0x00, 0x02, 0x88, 0xff, 0xff, 0xff, 0xff, 0xff, 0xff, 0xff, 0xff, 0x00, 0x00],
+            vec![0x7f, 0x66, 0x12, 0x0a, 0x01, 0x00, 0x02, 0x01, 0x00, 0x30, 0x80, 0x02, 0x88, 0xff, 0xff, 0xff, 0xff, 0xff, 0xff, 0xff, 0xf0, 0x00, 0x00],
+            vec![0x7f, 0x66, 0x80, 0x0a, 0x01, 0x00, 0x02, 0x01, 0x00, 0x30, 0x80, 0x02, 0x88, 0xff, 0xff, 0xff, 0xff, 0xff, 0xff, 0xff, 0xff],
+            vec![0x7f, 0x66, 0x0c, 0x30, 0x0a, 0x04, 0x88, 0xff, 0xff, 0xff, 0xff, 0xff, 0xff, 0xff, 0xff],
+            vec![0x7f, 0x66, 0x0b, 0x30, 0x09, 0x04, 0x87, 0xff, 0xff, 0xff, 0xff, 0xff, 0xff, 0xff],
         ] {
             v.push((format!("connect response bytes {}", vref::bytes::hex(&raw)), Deviation { msg: "connect_response".into(), kind: DevKind::Replace(vref::framing::tpkt(&vref::framing::x224_dt(&raw))) }));
         }
